@@ -588,7 +588,7 @@ def gen_fx_recursive(rng, linear=False, max_q=None, dead=False, scalar_start=Fal
     from fractions import Fraction
     import itertools
     for _ in range(400):
-        nls = {'T': rng.choice([1, 2, 2])}
+        nls = {'T': 2 if patterned == 'tri' else rng.choice([1, 2, 2])}
         nnt = rng.choice([1, 2, 2])
         ntn = ['S', 'X'][:nnt]
         els = {}
@@ -629,7 +629,7 @@ def gen_fx_recursive(rng, linear=False, max_q=None, dead=False, scalar_start=Fal
             # a binary nonterminal P whose base rule is an IDENTITY factor (built as a diagonal
             # PatternedTensor): its iterates change sparsity pattern ("tri"), or its sum-product stays a
             # diagonal pattern for ever ("diag")
-            pvariant = rng.choice(['tri', 'diag'])
+            pvariant = 'tri' if patterned == 'tri' else rng.choice(['tri', 'diag'])
             els['P'] = {'t': False, 'type': ['T', 'T']}
             els['eq'] = {'t': True, 'type': ['T', 'T']}
             n = nls['T']
